@@ -3,9 +3,13 @@
 //!   rvh run <Cxx> <quick|thorough>      run a property check (seed from VERIF_SEED)
 //!   rvh replay <file>                   re-run one saved case, bypassing all generators
 //!   rvh envprobe                        (internal) evaluate requests from stdin in this process' environment
+mod child;
 mod engine;
+mod envprobe;
+mod obs;
 mod props;
 mod refpath;
+mod sandbox;
 mod strgen;
 
 use engine::*;
@@ -57,6 +61,9 @@ fn main() {
                 std::process::exit(2);
             }
             std::process::exit(c.finish());
+        },
+        "envprobe" => {
+            envprobe::main();
         },
         "replay" => {
             let file = args.get(2).cloned().unwrap_or_default();
